@@ -680,8 +680,10 @@ class Marker:
     """a simulator module for `_SIMULATOR_MODULE`: real frames, a simulate_frame that only marks the cells it may touch"""
     METHOD_NAME = "marker"
 
-    def __init__(self, base):
+    def __init__(self, base, unant_qids=()):
         self.base = base
+        self.regular = None
+        self.unant = set(unant_qids)
         self.initial = None
         self.main = None
         self.seen = []
@@ -696,8 +698,9 @@ class Marker:
     def simulate_frame(self, model_v, frame_ds, *, frame, **kw):
         data = frame_ds.get_data_variant()
         self.seen.append(data.copy())
+        regular = [q for q in range(data.shape[0]) if q not in self.unant]
         for c in range(frame.first, frame.simulation_last + 1):
-            data[:, c] = 100 * frame.first + c
+            data[regular, c] = 100 * frame.first + c      # unanticipated-shock rows stay as the frame sees them (pruned)
         return _nq.ExitStatus.SUCCESS
 
 
@@ -726,7 +729,7 @@ def lean_lines_for_case(ctx: Ctx, spec, sc, rng, want_resid=True):
 
     # --- the frame loop with a marking simulator --------------------------------------
     for tag, base in (("st", _st), ("pp", _pp)):
-        mk = Marker(base)
+        mk = Marker(base, unant_qids)
         _sim._SIMULATOR_MODULE["__c06_marker"] = mk
         try:
             with quiet():
